@@ -126,7 +126,8 @@ def e_reject(ctx):
         if kind == "LinReg":
             continue  # "all kinds using the generic loader, i.e. all but LinReg"
         for k in good:
-            for badv in ("1.0", [1.0], True) if k != "loss" else ("yes", 1.0, 1):
+            # wrong types incl. FALSY ones ("", [], False, 0 for a boolean): a loader that tests `value or default` lets exactly those through
+            for badv in ("1.0", [1.0], True, "", [], False) if k != "loss" else ("yes", 1.0, 1, 0, 0.0, ""):
                 if isinstance(badv, list) and k == "rs" and kind in ("PMux", "RectD"):
                     continue  # a list is a legal rs there
                 cfg = {SECTION[kind]: {**good, k: badv}}
@@ -138,6 +139,43 @@ def e_reject(ctx):
                     n += 1
     ctx.cover("panel")
     ctx.note("rejections-checked=%d" % n)
+
+
+def e_falsy(ctx):
+    """Legal values that are falsy in Python (0, 0.0, False, an empty list / table where the schema allows a list / table): the file
+    must give what the constructor call with that very value gives - the same component, or the same exception type."""
+    n = 0
+    for kind in spec.KINDS:
+        if kind == "RectM":
+            continue
+        good = GOOD[kind]
+        for k, v0 in good.items():
+            cands = [False] if k == "loss" else [0, 0.0]
+            if k == "rs" and kind in ("PMux", "RectD"):
+                cands.append([])
+            if k in ("eff", "ig", "vdrop") and TABLE_KEY.get(kind) == k:
+                cands.append({})
+            for v in cands:
+                base = {**good, k: v}
+                try:
+                    b = cls_of(kind)("X", **base)
+                    want = None
+                except Exception as e:  # noqa: BLE001
+                    b, want = None, type(e)
+                try:
+                    a = _load(ctx, kind, {SECTION[kind]: dict(base)})
+                    got = None
+                except Exception as e:  # noqa: BLE001
+                    a, got = None, type(e)
+                info = {"kind": kind, "key": k, "value": repr(v), "constructor": getattr(want, "__name__", "builds"), "from_file": getattr(got, "__name__", "builds")}
+                if want is not None or got is not None:
+                    # (the generic loader turns a KeyError-free type problem into ValueError; the constructor's own complaint must survive)
+                    ctx.check("falsy-value:same-outcome-as-constructor", cond(want is got), key="falsy/%s/%s/%r" % (kind, k, v), info=info)
+                    continue
+                snap.compare(ctx, snap.comp_state(a), snap.comp_state(b), "loaded==constructed(falsy)", info=info)
+                n += 1
+    ctx.cover("panel")
+    ctx.note("falsy-values-compared=%d" % n)
 
 
 def e_ints(ctx):
@@ -179,7 +217,8 @@ META = {
 def instances(tier):
     import itertools
 
-    out = [Instance("C13", "c13:e_reject", {}, cover=["panel"]), Instance("C13", "c13:e_ints", {}, cover=["panel"])]
+    out = [Instance("C13", "c13:e_reject", {}, cover=["panel"]), Instance("C13", "c13:e_ints", {}, cover=["panel"]),
+           Instance("C13", "c13:e_falsy", {}, cover=["panel"])]
     for kind in spec.KINDS:
         optional = [k for k in PARAMS[kind] if k not in MANDATORY[kind]]
         subsets = [[], list(optional)] + [[k] for k in optional]
